@@ -7,31 +7,31 @@ Import ListNotations.
 (* A node conforms to a referenced shape exactly when validating it against that shape
    yields no results - for every environment (recursive or not), every option setting,
    every evaluation path and depth. *)
-Theorem C04_conform_iff_empty : forall trig o g E fuel ep s foci c rs,
-  vshape trig fuel o g E false ep s foci = Ok (c, rs) -> (c = true <-> rs = []).
-Proof. intros trig o g E fuel ep s foci c rs H. exact (vshape_good trig o g E fuel ep s foci (c, rs) H). Qed.
+Theorem C04_conform_iff_empty : forall trig W o g E fuel ep s foci c rs,
+  vshape trig W fuel o g E false ep s foci = Ok (c, rs) -> (c = true <-> rs = []).
+Proof. intros trig W o g E fuel ep s foci c rs H. exact (vshape_good trig W o g E fuel ep s foci (c, rs) H). Qed.
 Print Assumptions C04_conform_iff_empty.
 
 (* and every component hands back `conforms` exactly when it reports nothing *)
-Theorem C04_component_conform_iff_empty : forall trig nested g E s fvs ep c cr,
-  nested_good nested -> evalc trig nested g E s fvs ep c = Ok cr -> (fst cr = true <-> snd cr = []).
+Theorem C04_component_conform_iff_empty : forall trig W nested g E s fvs ep c cr,
+  nested_good nested -> evalc trig W nested g E s fvs ep c = Ok cr -> (fst cr = true <-> snd cr = []).
 Proof. exact evalc_good. Qed.
 Print Assumptions C04_component_conform_iff_empty.
 
 (* without severity waivers the verdict is 'conforms' exactly when there is no result *)
-Theorem C04_verdict_default : forall trig o sg g E c rs,
+Theorem C04_verdict_default : forall trig W o sg g E c rs,
   allow_infos o = false -> allow_warnings o = false ->
-  validate trig o sg g E = Ok (c, rs) -> (c = true <-> rs = []).
+  validate trig W o sg g E = Ok (c, rs) -> (c = true <-> rs = []).
 Proof. exact validate_verdict_default. Qed.
 Print Assumptions C04_verdict_default.
 
 (* sh:not, sh:and, sh:or, sh:xone and sh:qualifiedValueShape (with sibling shapes) produce their
    results from the members' conformance alone: two nested evaluators that agree on conformance
    (whatever results they return) give the same component results. *)
-Theorem C04_conformance_only : forall trig n1 n2 g E s fvs ep c cr,
+Theorem C04_conformance_only : forall trig W n1 n2 g E s fvs ep c cr,
   fst_agree n1 n2 ->
   match c with CNode _ | CProperty _ => False | _ => True end ->
-  evalc trig n2 g E s fvs ep c = Ok cr -> evalc trig n1 g E s fvs ep c = Ok cr.
+  evalc trig W n2 g E s fvs ep c = Ok cr -> evalc trig W n1 g E s fvs ep c = Ok cr.
 Proof. exact evalc_conformance_only. Qed.
 Print Assumptions C04_conformance_only.
 
@@ -39,14 +39,14 @@ Print Assumptions C04_conformance_only.
    shape was produced by a constraint of that shape or of a property shape reached from it
    through sh:property links only; it carries that shape's identity and severity; nested
    results appear only as sh:detail of sh:node results. *)
-Theorem C04_no_leak : forall trig o g E fuel top ep s foci cr,
-  vshape trig fuel o g E top ep s foci = Ok cr -> Forall (owned_by E s) (snd cr).
+Theorem C04_no_leak : forall trig W o g E fuel top ep s foci cr,
+  vshape trig W fuel o g E top ep s foci = Ok cr -> Forall (owned_by E s) (snd cr).
 Proof. exact vshape_owned. Qed.
 Print Assumptions C04_no_leak.
 
 (* every node conforms to a deactivated shape *)
-Theorem C04_deactivated : forall trig o g E fuel top ep s foci,
-  deact s = true -> vshape trig fuel o g E top ep s foci = Ok (true, []).
+Theorem C04_deactivated : forall trig W o g E fuel top ep s foci,
+  deact s = true -> vshape trig W fuel o g E top ep s foci = Ok (true, []).
 Proof. exact vshape_deactivated. Qed.
 Print Assumptions C04_deactivated.
 
@@ -61,6 +61,6 @@ Definition TOP : shape := {| sid := IRI 200; spath := None; deact := false; ssev
    stargets := {| t_nodes := [IRI 1]; t_classes := []; t_implicit := false; t_subjects_of := []; t_objects_of := [] |};
    scomps := [CProperty [BN 1]] |}.
 Example C04_nonvacuous :
-  validate_impl default_opts [] [(IRI 1, IRI 50, IRI 2); (IRI 1, IRI 50, IRI 3)] [TOP; Q; OR1; NOT1; L1; L2]
-  = Ok (false, [VR (IRI 1) None sh_QualifiedMinCountConstraintComponent (BN 1) t_Info []]).
+  validate_impl0 default_opts [] [(IRI 1, IRI 50, IRI 2); (IRI 1, IRI 50, IRI 3)] [TOP; Q; OR1; NOT1; L1; L2]
+  = Ok (false, [VR (IRI 1) None (Some (IRI 50)) sh_QualifiedMinCountConstraintComponent (BN 1) t_Info []]).
 Proof. vm_compute. reflexivity. Qed.
